@@ -55,8 +55,14 @@ LateBadSeats(h, m, t, o) ==
              IN ~(Playable(t, s) <=> (passed /\ ~t.seat[s].reserved))}
 \* the clause name tells whether the seat taken had been OCCUPIED when the blinds of the running hand were set and
 \* was vacated since (it is then still active) - the shape of known finding F8, and of nothing else
+\* ... or (known finding F11) whether the newcomer is dealt in early on a seat that the move has left BEHIND the new big
+\* blind: players between the small blind and the old big blind sat in after the blinds were set, the blinds zone of the
+\* next hand ends before the seat, and "activate the rest" switches it on although the button has not passed it
+BehindNewBigBlind(t, s) == t.dealer # NULL /\ t.bb # NULL /\ t.dealer # t.bb /\ s \in BetweenCW(t, t.bb, t.dealer)
 C08_lateJoinerBad(h, m, t, o) ==
-  {IF h.track[s].vacatedSince THEN "C08.lateJoiner.seatVacatedSinceBlindsSet" ELSE "C08.lateJoiner" : s \in LateBadSeats(h, m, t, o)}
+  {IF h.track[s].vacatedSince THEN "C08.lateJoiner.seatVacatedSinceBlindsSet"
+   ELSE IF Playable(t, s) /\ BehindNewBigBlind(t, s) THEN "C08.lateJoiner.seatBehindNewBigBlind"
+   ELSE "C08.lateJoiner" : s \in LateBadSeats(h, m, t, o)}
 
 (* ---------------------------------- C17 ---------------------------------- *)
 \* "the previous dealer" is a fact of the history, not a field that any operation may rewrite: it is the dealer
